@@ -24,7 +24,7 @@ RULE = (
     "every ordered pair (and triples of a sub-pool) of the pool; non-trivial = matrix non-zero; evaluations = library norm calls compared"
 )
 BOUNDS = {
-    "quick": "shapes m,n<=3 (all rectangular), pool of 24 matrices per shape from 14 integer-modulus letters, all ordered pairs, triples of an 6-matrix sub-pool, 5 scalars, 7 valid + 9 invalid ord spellings",
+    "quick": "shapes m,n<=3 (all rectangular), pool of 24 matrices per shape from 14 integer-modulus letters, all ordered pairs, triples of an 6-matrix sub-pool, 5 scalars, 7 valid + 9 invalid ord spellings; definition cells at whole-matrix scalings 1, 1/2, 2^20, 2^-60, 2^-200, 2^200; larger shapes and 15 component masks",
     "thorough": "shapes<=5",
 }
 WALL_BUDGET = {"quick": 300, "thorough": 2400}
@@ -103,7 +103,7 @@ def run_case(case, seed):
         m, n = case["m"], case["n"]
         for idx in pool(m, n, 40, fill):
             Ai = mat(idx)
-            for cscale in (1.0, 0.5, 2.0 ** 20):
+            for cscale in (1.0, 0.5, 2.0 ** 20, 2.0 ** -60, 2.0 ** -200, 2.0 ** 200):
                 A = Ai.astype(float) * cscale
                 Aq = G.to_quat(A)
                 mod = moduli(idx).astype(float) * cscale
